@@ -131,12 +131,16 @@ func VerifHarness_C13_capacity() {
 
 // VerifHarness_C13_percent: utilisation = 100 x requests / capacity per
 // resource (capacity concrete per shape, requests symbolic).
-// shape: [milli-cpu capacity, MiB capacity]
+// shape: [milli-cpu capacity, MiB capacity, request multiple (default 64)]
 func VerifHarness_C13_percent() {
 	capCPU := int64(verifShape(0))
 	capMem := int64(verifShape(1)) << 20
-	cpuReq := verifInt("cpuReq", 0, 64*capCPU)
-	memReq := verifInt("memReq", 0, 64*capMem)
+	mult := int64(verifShape(2))
+	if mult == 0 {
+		mult = 64
+	}
+	cpuReq := verifInt("cpuReq", 0, mult*capCPU)
+	memReq := verifInt("memReq", 0, mult*capMem)
 	cpuPct, memPct, err := calcPercentUsage(
 		*k8s_resource.NewCPUQuantity(cpuReq), *k8s_resource.NewMemoryQuantity(memReq),
 		*k8s_resource.NewCPUQuantity(capCPU), *k8s_resource.NewMemoryQuantity(capMem), 2)
